@@ -349,6 +349,7 @@ theorem FInv_closed : Closed FInv where
   siteCnt := fun s x h => ⟨LInv_closed.siteCnt s x h.1, LS_of_sview h.2 rfl⟩
   emitInj := fun s a b c d h => ⟨LInv_closed.emitInj s a b c d h.1, LS_emit_plain h.2 _ (fun _ => rfl) (fun _ => rfl)⟩
   clock := fun s n h => ⟨LInv_closed.clock s n h.1, LS_of_sview h.2 rfl⟩
+  lastFlush := fun s n h => ⟨LInv_closed.lastFlush s n h.1, LS_of_sview h.2 rfl⟩
   gone := fun s h => ⟨LInv_closed.gone s h.1, LS_of_sview h.2 rfl⟩
   refresh := fun s h => ⟨LInv_closed.refresh s h.1, LS_of_sview h.2 (by unfold refreshCache; split <;> rfl)⟩
   allEmpty := fun s h => ⟨LInv_closed.allEmpty s h.1, LS_of_sview h.2 (allEmpty_sview s)⟩
